@@ -28,6 +28,7 @@ type omap struct {
 	idx     map[value]int // builtin keys -> position
 	hidx    map[int][]int // other keys: hash -> positions
 	n       int
+	nsym    int // number of live entries whose key contains a symbolic scalar
 }
 
 // makeMap returns an empty initialized map of key type kt.
@@ -41,19 +42,37 @@ func makeMap(kt types.Type, reserve int64) value {
 	return m
 }
 
-func checkKey(k value) {
-	switch k.(type) {
-	case sym, *sstr:
-		panic(engineAbort{kind: abortUnsupported, msg: "symbolic map key"})
-	}
-}
-
-func (m *omap) find(k value) int {
+// find returns the position of key k or -1. Keys containing symbolic scalars
+// are decided by forking on equality with each stored key.
+func (m *omap) find(in *interpreter, k value) int {
 	if m == nil {
 		return -1
 	}
+	if m.nsym > 0 || hasSym(k) {
+		if in == nil {
+			panic(engineAbort{kind: abortUnsupported, msg: "symbolic map key without interpreter"})
+		}
+		for p := range m.keys {
+			if m.dead[p] {
+				continue
+			}
+			if !hasSym(k) && !hasSym(m.keys[p]) {
+				if m.builtin {
+					if m.keys[p] == k {
+						return p
+					}
+				} else if k.(hashable).eq(m.keyType, m.keys[p]) {
+					return p
+				}
+				continue
+			}
+			if in.boolOf(in.symEquals(m.keyType, k, m.keys[p]), "mapkey") {
+				return p
+			}
+		}
+		return -1
+	}
 	if m.builtin {
-		checkKey(k)
 		if i, ok := m.idx[k]; ok {
 			return i
 		}
@@ -72,14 +91,17 @@ func (m *omap) find(k value) int {
 	return -1
 }
 
-func (m *omap) delete(k value) {
-	i := m.find(k)
+func (m *omap) delete(in *interpreter, k value) {
+	i := m.find(in, k)
 	if i < 0 {
 		return
 	}
 	m.dead[i] = true
 	m.n--
-	if m.builtin {
+	k = m.keys[i]
+	if hasSym(k) {
+		m.nsym--
+	} else if m.builtin {
 		delete(m.idx, k)
 	} else {
 		h := k.(hashable).hash(m.keyType)
@@ -95,19 +117,19 @@ func (m *omap) delete(k value) {
 }
 
 // lookup returns the value for key k and whether it is present.
-func (m *omap) lookup(k value) (value, bool) {
-	i := m.find(k)
+func (m *omap) lookup(in *interpreter, k value) (value, bool) {
+	i := m.find(in, k)
 	if i < 0 {
 		return nil, false
 	}
 	return m.vals[i], true
 }
 
-func (m *omap) insert(k value, v value) {
+func (m *omap) insert(in *interpreter, k value, v value) {
 	if m == nil {
 		panic(rtErr("assignment to entry in nil map"))
 	}
-	if i := m.find(k); i >= 0 {
+	if i := m.find(in, k); i >= 0 {
 		m.vals[i] = v
 		return
 	}
@@ -116,7 +138,9 @@ func (m *omap) insert(k value, v value) {
 	m.vals = append(m.vals, v)
 	m.dead = append(m.dead, false)
 	m.n++
-	if m.builtin {
+	if hasSym(k) {
+		m.nsym++
+	} else if m.builtin {
 		m.idx[k] = i
 	} else {
 		h := k.(hashable).hash(m.keyType)
@@ -142,6 +166,7 @@ func (m *omap) clear() {
 		}
 	}
 	m.n = 0
+	m.nsym = 0
 	if m.builtin {
 		m.idx = make(map[value]int)
 	} else {
